@@ -159,8 +159,10 @@ Proof.
   - unfold start_if_ready.
     match goal with |- context [if ?c then ok [] else _] => destruct c end; [safe|].
     destruct (should_skip _); [unfold ok; cbn [h_commits]; safe|].
+    destruct (milestone_expired _ _); [unfold ok; cbn [h_commits]; safe|].
     destruct (mutex_blocked _ _ _); [unfold ok; cbn [h_commits]; safe|].
     destruct (_ && choice_claimed _ _ _); [unfold ok; cbn [h_commits]; safe|].
+    destruct (y_expired _); [unfold ok; cbn [h_commits]; safe|].
     match goal with |- context [negb (fst ?m)] => destruct (fst m) end; cbn [negb]; [|unfold ok; cbn [h_commits]; safe].
     match goal with |- context [negb (fst ?c)] => destruct (fst c) end; cbn [negb]; [|unfold ok; cbn [h_commits]; safe].
     unfold ok; cbn [h_commits]. apply Forall_app. split.
